@@ -121,7 +121,7 @@ import posixpath as _pp
 # pure string functions of the standard library the evaluated code may call (POSIX semantics, case-sensitive)
 import re as _re
 
-_PURE_EXTERNALS = {"re.compile": _re.compile, "re.escape": _re.escape, "fnmatch.fnmatch": _fn.fnmatchcase, "fnmatch.fnmatchcase": _fn.fnmatchcase, "fnmatch.translate": _fn.translate, "os.path.basename": _pp.basename, "os.path.normcase": _pp.normcase, "os.path.splitext": _pp.splitext}
+_PURE_EXTERNALS = {"re.search": _re.search, "re.match": _re.match, "re.fullmatch": _re.fullmatch, "re.findall": _re.findall, "re.split": _re.split, "re.sub": _re.sub, "re.compile": _re.compile, "re.escape": _re.escape, "fnmatch.fnmatch": _fn.fnmatchcase, "fnmatch.fnmatchcase": _fn.fnmatchcase, "fnmatch.translate": _fn.translate, "os.path.basename": _pp.basename, "os.path.normcase": _pp.normcase, "os.path.splitext": _pp.splitext}
 
 
 def _prog_call(fn, *args, **kw):
@@ -541,6 +541,11 @@ class _Expr(SymEval):
                 if not all(isinstance(x, str) for x in rest):
                     raise NotSymbolic("read() of a non-text stream")
                 return "".join(rest) if f.attr == "read" else rest
+            if isinstance(base, (_re.Match, _re.Pattern)) and f.attr in ("group", "groups", "groupdict", "start", "end", "span", "search", "match", "fullmatch", "findall", "split", "sub"):
+                margs = [self.eval(a) for a in n.args]
+                if not all(isinstance(a, (str, int)) for a in margs):
+                    raise NotSymbolic(f"regular-expression method {f.attr} on non-constant arguments")
+                return _prog_call(getattr(base, f.attr), *margs)
             if isinstance(base, TextSink):
                 if f.attr == "write" and len(n.args) == 1:
                     txt = self.eval(n.args[0])
